@@ -43,8 +43,35 @@ def _replay_k1(n_extra):
     return generic_replay(build)
 
 
+def _truncation_probes(n_extra):
+    """counterexample candidates for 18-decimal truncation slips: reserves above 10^18 whose product leaves a remainder of 1 or 2 modulo
+    (offer reserve + offer), i.e. an exact quotient just below the 10^-18 resolution of Decimal256; zero or protocol-only fees (a retained
+    swap fee would hide one unit).  offer = N/200 (0.5% of the pool), reserve_y solved from x*y = r (mod N)."""
+    out = []
+    for N0 in (10 ** 18 + 7, 10 ** 21 + 1, 10 ** 24 + 5 * 10 ** 21, 2 ** 100 + 12345, 2 ** 118 + 99):
+        for r in (1, 2):
+            a = N0 // 200
+            N = N0
+            while True:
+                try:
+                    inv = pow(a, -1, N)
+                    break
+                except ValueError:
+                    a += 1
+            y = (-r * inv) % N
+            if y == 0:
+                continue
+            for pf in (0, 10 ** 15):
+                p = {'reserve_x': N - a, 'reserve_y': y, 'offer': a, 'protocol_fee': pf, 'swap_fee': 0, 'burn_fee': 0, 'max_slippage_atomics': 5 * 10 ** 17}
+                for i in range(n_extra):
+                    p['extra_fee%d' % i] = 0
+                out.append(p)
+    return out
+
+
 def _ob_k1(n_extra):
     def k1(I):
+        I.set_probes(_truncation_probes(n_extra))
         x, y, shares = _setup_xyk(I, n_extra)
         o = I.sym('offer', lo=1, hi=U128)
         tol = I.sym('max_slippage_atomics', hi=U128)
